@@ -140,8 +140,13 @@ def coq_prepare():
 
 def coq_make(targets, timeout=2400):
     """build .vo targets (paths relative to coq/); returns (ok, log)"""
-    coq_prepare()
-    rc, out = run(["make", "-j%d" % NPROC, "-k"] + list(targets), cwd=COQ, timeout=timeout)
+    import fcntl
+    os.makedirs(BUILD, exist_ok=True)
+    # one make at a time in coq/: concurrent checks (and developers) share the tree of compiled files
+    with open(os.path.join(BUILD, "coq-make.lock"), "w") as lk:
+        fcntl.flock(lk, fcntl.LOCK_EX)
+        coq_prepare()
+        rc, out = run(["make", "-j%d" % NPROC, "-k"] + list(targets), cwd=COQ, timeout=timeout)
     return rc == 0, out
 
 
